@@ -662,8 +662,14 @@ class ConvexPolyhedron(Polyhedron):
 
         """
         _, principal_axes = np.linalg.eigh(self.inertia_tensor)
+        # The eigenvectors are only defined up to sign: make this a proper rotation
+        # so that the shape is reoriented, never mirrored.
+        if np.linalg.det(principal_axes) < 0:
+            principal_axes[:, 0] *= -1
         self._vertices = np.dot(self._vertices, principal_axes)
         self._sort_simplices()
+        # The face normals rotate with the vertices.
+        self._find_equations()
 
     @property
     def mean_curvature(self):
